@@ -36,7 +36,7 @@ def paren_of(e):
     if k == "leaf":
         return e[1].replace(" ", "").lower()
     if k == "par":
-        return "P[" + paren_of(e[1]) + "]"
+        return "p[" + paren_of(e[1]) + "]"
     if k == "un":
         return "(" + e[1].lower() + paren_of(e[2]) + ")"
     return "(" + paren_of(e[2]) + e[1].lower() + paren_of(e[3]) + ")"
@@ -98,6 +98,31 @@ def has_defbin_with_dotted_right(e):
                 if k2 == "leaf" and t2.lower().startswith((".true.", ".false.")):
                     return True
     return any(has_defbin_with_dotted_right(x) for x in inner)
+
+
+def text_has_defbin_dotted_right(text):
+    """Textual form of the same predicate, also looking inside argument lists
+    and constructors: a defined binary operator followed, before its
+    parenthesis level closes or a comma at that level, by a dotted token."""
+    from ..lexer import lex
+
+    toks = lex(text, comments=False)
+    defs = {d.lower() for d in DEF_BIN}
+    for i, (t, c) in enumerate(toks):
+        if c == "O" and t.lower() in defs:
+            depth = 0
+            for t2, c2 in toks[i + 1:]:
+                if c2 == "P" and t2 in ("(", "[", "(/"):
+                    depth += 1
+                elif c2 == "P" and t2 in (")", "]", "/)"):
+                    depth -= 1
+                    if depth < 0:
+                        break
+                elif c2 == "P" and t2 == "," and depth == 0:
+                    break
+                elif c2 == "O" and depth == 0:
+                    return True
+    return False
 
 
 class ExprGen:
